@@ -452,6 +452,7 @@ pub const POINTS: &[&str] = &[
     "dsd.counter.abs.after_current_store",
     "dsd.gauge.flush.after_value_load",
     "dsd.gauge.set.after_value_store",
+    "cell.set.after_publish",
     // harness-side pseudo points
     "@start",
     "@done",
